@@ -234,7 +234,7 @@ func runC16(r *ev.Run) {
 		w := &universe.Walker{}
 		w.Visit = func(w *universe.Walker, p *refchess.Pos, left int) bool {
 			k := n2.Add(1)
-			handle(w.B, ms, &ru, func() string { return w.B.FEN() }, len(w.Path) == 0 && item%4 == int(r.Seed%4), rankers, []int{0, 2})
+			handle(w.B, ms, &ru, func() string { return w.B.FEN() }, len(w.Path) == 0 && item%8 == int(r.Seed%8), rankers, []int{0, 2})
 			if k%2000 == 1 {
 				r.Sample(map[string]any{"fen": w.B.FEN(), "hash_moves": "0, every generated move, 64 foreign encodings", "rankers": rankers})
 			}
@@ -255,7 +255,7 @@ func runC16(r *ev.Run) {
 			handle(w.ld.Load(p), w.ms, &w.ru, p.FEN, false, []string{"fresh"}, []int{0})
 		})
 	}
-	forClasses(r, parseClasses([]string{"KPkp", "KRkr"}), universe.Opts{OnlySpecial: true}, func() *worker { return &worker{ms: move.NewStore()} }, func(w *worker, p *refchess.Pos) {
+	forClasses(r, parseClasses(ev.Pick(r, []string{"KPkp"}, []string{"KPkp", "KRkr", "KPPk"})), universe.Opts{OnlySpecial: true}, func() *worker { return &worker{ms: move.NewStore()} }, func(w *worker, p *refchess.Pos) {
 		handle(w.ld.Load(p), w.ms, &w.ru, p.FEN, false, []string{"fresh"}, []int{0})
 	})
 
